@@ -1,0 +1,43 @@
+//go:build verif
+
+// Verification hook for C17 (add-only, compiled only with -tags verif).
+
+package codec
+
+import "reflect"
+
+// VerifTypeFlags are the inputs of the encFnLoad / decFnLoad guard chains for one type under one handle.
+type VerifTypeFlags struct {
+	IsTime, IsRaw, IsRawExt, ExtRegistered, TimeBuiltin, BinaryEncoding, Json, RkStruct, RkArray bool
+
+	Selfer, SelferPtr                                                          bool
+	BinaryMarshaler, BinaryMarshalerPtr, BinaryUnmarshaler, BinaryUnmarshalerPtr bool
+	JsonMarshaler, JsonMarshalerPtr, JsonUnmarshaler, JsonUnmarshalerPtr         bool
+	TextMarshaler, TextMarshalerPtr, TextUnmarshaler, TextUnmarshalerPtr         bool
+}
+
+// VerifTypeFlagsOf reads the typeInfo flags and handle facts the guard chains test.
+func VerifTypeFlagsOf(h Handle, rt reflect.Type) (f VerifTypeFlags) {
+	initHandle(h)
+	bh := h.getBasicHandle()
+	rtid := rt2id(rt)
+	ti := bh.getTypeInfo(rtid, rt)
+	f.IsTime = rtid == timeTypId
+	f.IsRaw = rtid == rawTypId
+	f.IsRawExt = rtid == rawExtTypId
+	f.ExtRegistered = bh.extHandle.getExt(rtid, true) != nil
+	f.TimeBuiltin = bh.timeBuiltin
+	f.BinaryEncoding = bh.binaryHandle
+	f.Json = bh.jsonHandle
+	rk := reflect.Kind(ti.kind)
+	f.RkStruct = rk == reflect.Struct
+	f.RkArray = rk == reflect.Array
+	f.Selfer, f.SelferPtr = ti.flagSelfer, ti.flagSelferPtr
+	f.BinaryMarshaler, f.BinaryMarshalerPtr = ti.flagBinaryMarshaler, ti.flagBinaryMarshalerPtr
+	f.BinaryUnmarshaler, f.BinaryUnmarshalerPtr = ti.flagBinaryUnmarshaler, ti.flagBinaryUnmarshalerPtr
+	f.JsonMarshaler, f.JsonMarshalerPtr = ti.flagJsonMarshaler, ti.flagJsonMarshalerPtr
+	f.JsonUnmarshaler, f.JsonUnmarshalerPtr = ti.flagJsonUnmarshaler, ti.flagJsonUnmarshalerPtr
+	f.TextMarshaler, f.TextMarshalerPtr = ti.flagTextMarshaler, ti.flagTextMarshalerPtr
+	f.TextUnmarshaler, f.TextUnmarshalerPtr = ti.flagTextUnmarshaler, ti.flagTextUnmarshalerPtr
+	return
+}
